@@ -60,6 +60,11 @@ def gen(seed, tier="quick"):
         # controller-side airframe constants, set before the functions are derived (a lighter / heavier airframe)
         "m_ctrl": knobs.choice([1.0, 1.5, 3.0]) if (randomise and knobs.random() < 0.3) else None,
     }
+    # round 7: the stick-to-thrust authority as a knob (the script passes 0.5 m g); values above the trim
+    # make the low end of the throttle range command a negative collective thrust, which the linear map states
+    k2 = stream(seed, "knobs2")
+    kn_delta = k2.choice([2.0, 8.0, 20.0, 35.0, 60.0]) if (randomise and k2.random() < 0.5) else None
+    kn["thrust_delta"] = kn_delta
     tilt = ic.uniform(0, math.radians(40))
     az = ic.uniform(-math.pi, math.pi)
     yaw = ic.uniform(-math.pi, math.pi)
@@ -206,6 +211,14 @@ def run(scn):
             a[0] = kn["thrust_trim"]
         if any(kn.get("at_w", [0, 0, 0])):
             a[3] = kn["at_w"]
+        return tuple(a)
+
+    def sub_stick(args):
+        a = list(args)
+        if kn.get("thrust_trim"):
+            a[0] = kn["thrust_trim"]
+        if kn.get("thrust_delta"):
+            a[1] = kn["thrust_delta"]
         return tuple(a)
 
     def sub_pos(args):
@@ -493,7 +506,7 @@ def run(scn):
                 "input_acro": mon_acro, "input_auto_level": mon_auto_level, "attitude_control": mon_att, "so3_attitude_control": mon_so3att,
                 "se23_error": mon_se23err}
     subst = {"position_control": sub_pos, "attitude_rate_control": sub_rate, "attitude_control": sub_kp0, "so3_attitude_control": sub_kp0, "se23_position_control": sub_se23pos,
-             "input_velocity": sub_velocity}
+             "input_velocity": sub_velocity, "input_acro": sub_stick, "input_auto_level": sub_stick}
     common.wrap_eqs(node, monitors, subst)
 
     # ---- glitches between plant and controller ---------------------------------
